@@ -319,7 +319,7 @@ func ruleShrinkReserve(c *Ctx, id string) {
 				}
 				var kres int64 = -1
 				for _, pr := range [][2]ssa.Value{{add.X, add.Y}, {add.Y, add.X}} {
-					cl, isC := stripConv(pr[0]).(*ssa.Call)
+					cl, isC := sc.S.resolve(stripConv(pr[0])).(*ssa.Call)
 					if !isC || cl.Call.StaticCallee() == nil || cl.Call.StaticCallee().Name() != "NDirty" {
 						continue
 					}
